@@ -65,7 +65,7 @@ SPEC = dict(
     level="exploration",
     level_text="Model-based runtime monitor: the real nng_msg implementation is driven through its public API under ASan+UBSan with a reference model compared after every step, plus the guarded storage-invariant hook in core/message.c; exhaustive for short sequences over a reduced alphabet, sampled beyond. Held-on-what-was-run, not a proof.",
     level_note="Trusts the 60-line byte-vector model in harness/c17_msg.c, gcc ASan/UBSan, and that bytes newly exposed by realloc/alloc are unspecified.",
-    technique="runtime reference-model monitor + ASan/UBSan + invariant hook",
+    technique="runtime reference-model monitor + ASan/UBSan + invariant hook; valgrind memcheck (definedness of every value that steers a branch, an address or a system call) on a sample of the same workload",
     rule="each case is one sequence of nng_msg_* edits mirrored on a two-byte-vector model "
          "with full state comparison after every step; exhaustive tier enumerates all sequences "
          "of length<=3 (quick) / <=4 (thorough) over a 20-operation reduced alphabet x 3 initial "
@@ -79,11 +79,20 @@ SPEC = dict(
                  "requests above 64 MiB are refused by the allocator (ASan max_allocation_size_mb=64 set by the harness), above 2^40 by the accounting allocator"],
     quick=dict(runs=[R("c17_msg", "asan", 8, 0, "exh3", 300),
                      R("c17_msg", "asan", 8, 4000, "rand", 300),
-                     R("c17_msg", "asan", 4, 0, "huge", 300)] + _alias_runs,
+                     R("c17_msg", "asan", 4, 0, "huge", 300),
+                     # valgrind memcheck lines: only memcheck reports are judged (see vf FLAVORS["vg"])
+                     R("c17_msg", "vg", 4, 0, "exh3", 1800),
+                     R("c17_msg", "vg", 4, 400, "rand", 1800),
+                     R("c17_msg", "vg", 2, 0, "alias", 1800)] + _alias_runs,
                floor=_floor(25260, 32000, 900000, 1),
                exhaustive_note="mode exh3 enumerates the reduced alphabet completely; the random part is sampled"),
     thorough=dict(runs=[R("c17_msg", "asan", 16, 0, "exh4", 1800),
                         R("c17_msg", "asan", 16, 60000, "rand", 1800),
-                        R("c17_msg", "asan", 4, 0, "huge", 300)] + _alias_runs,
+                        R("c17_msg", "asan", 4, 0, "huge", 300),
+                        # valgrind memcheck lines: only memcheck reports are judged (see vf FLAVORS["vg"])
+                        R("c17_msg", "vg", 8, 0, "exh3", 1800),
+                        R("c17_msg", "vg", 8, 3000, "rand", 1800),
+                        R("c17_msg", "vg", 2, 0, "alias", 1800),
+                        R("c17_msg", "vg", 2, 0, "huge", 1800)] + _alias_runs,
                   floor=_floor(505260, 960000, 27000000, 10)),
 )
